@@ -475,6 +475,12 @@ func (vp baseStuckVoteproof) isValid(networkID []byte, ovp baseVoteproof) error 
 		return util.ErrInvalid.Errorf("empty expels")
 	}
 
+	// NOTE stuck voteproof is not counted by votes, it should be draw always;
+	// see finish().
+	if ovp.majority != nil {
+		return util.ErrInvalid.Errorf("stuck voteproof should be draw, but majority found")
+	}
+
 	return isValidithdrawVoteproof(networkID, vp.expels, ovp)
 }
 
